@@ -49,7 +49,7 @@ var Quirks = []Quirk{
 // decoders declare themselves; an attribute carried in a path segment, query
 // parameter or header gets a Go variable named after it (lower camel case) in
 // the same function.
-var GeneratedLocals = map[string]bool{"r": true, "payload": true, "body": true, "err": true, "goa": true, "ctx": true, "mux": true, "ok": true, "p": true, "params": true, "req": true, "res": true, "resp": true, "v": true}
+var GeneratedLocals = map[string]bool{"r": true, "payload": true, "body": true, "err": true, "goa": true, "ctx": true, "mux": true, "ok": true, "p": true, "params": true, "req": true, "res": true, "resp": true, "v": true, "val": true}
 
 // lowerCamel approximates codegen.Goify(name, false) for the names the generator uses.
 func lowerCamel(s string) string {
